@@ -289,7 +289,10 @@ func (s Set) matchVersion(v *Version, includePrerelease bool) bool {
 			// dev (it doesn't seem to matter which is which).
 			if !pre && (v.IsPrerelease() || v.isPyPIDev()) {
 				anyPre := span.min.IsPrerelease() || span.max.IsPrerelease()
-				anyDev := span.min.isPyPIDev() || span.max.isPyPIDev()
+				// The lower bound of "<V" is the synthetic minimum version,
+				// which happens to be a dev release; it does not make the
+				// user's specifier a dev specifier.
+				anyDev := span.min.isPyPIDev() && !span.min.equal(pypiMinVersion) || span.max.isPyPIDev()
 				if !(anyPre || anyDev) {
 					continue
 				}
